@@ -67,10 +67,14 @@ structure Fixes where
   /-- `tickit_term_resume` ends with `chpen(driver, tt->pen, tt->pen)`: the cached pen is sent again after the
       `CSI m` of `tickit_term_pause` (`fixes/C12_pause_pen.patch`, found by the C12 engine). -/
   resumeResendsPen : Bool
+  /-- the one-line ICH/DCH path of `scrollrect` returns `false` when the right margin it needs would be column 1
+      (`if(right < term_cols && right < 2) return false;`, `fixes/C09_scroll_one_cell.patch`): `CSI ;1 s` would be
+      ignored and ICH/DCH would shift the whole line. -/
+  scrollCellGuard : Bool
 deriving DecidableEq, Repr, Inhabited
 
 /-- The code as found in the unchanged tree. -/
-def Fixes.none : Fixes := ⟨false, false, false, false⟩
+def Fixes.none : Fixes := ⟨false, false, false, false, false⟩
 
 /-- `printf` restricted to `%d`: the format strings of the source, instantiated. -/
 def fmt : List UInt8 → List Int → List UInt8
@@ -130,6 +134,8 @@ def scrollrect (fx : Fixes) (caps : Caps) (termCols : Int) (rect : Rect) (downwa
   else
     let right := rect.right
     if ((caps.slrm ∧ rect.lines = 1) ∨ right = termCols) ∧ downward = 0 then
+      if fx.scrollCellGuard ∧ right < termCols ∧ right < 2 then (false, [])
+      else
       (true,
         (if right < termCols then csi ([0x3b] ++ showInt right ++ [0x73]) else []) ++
         ((List.range rect.lines.toNat).flatMap fun (i : Nat) => scrollLine (rect.top + (i : Int)) rect.left rightward) ++
@@ -458,6 +464,16 @@ structure ScrollInRange (vt : VT.VTState) (rect : Rect) (downward rightward : In
   down : -rect.lines < downward ∧ downward < rect.lines
   rightw : -rect.cols < rightward ∧ rightward < rect.cols
 
+/-- A non-empty rectangle on the screen `vt`: all a scroll request needs for the repaired source, where the offsets may
+    be of any size (Props `scroll_any_offset_of_guards`). -/
+structure RectOnScreen (vt : VT.VTState) (rect : Rect) : Prop where
+  lines_pos : 1 ≤ rect.lines
+  cols_pos : 1 ≤ rect.cols
+  top : 0 ≤ rect.top
+  bottom : rect.bottom ≤ vt.lines
+  left : 0 ≤ rect.left
+  right : rect.right ≤ vt.cols
+
 /-- The trigger of the defect `scroll_one_column_counterexample`: a one-column rectangle that does not span the
     terminal, scrolled vertically, with DECSLRM available. -/
 def OneColumnTrigger (caps : Caps) (termCols : Int) (rect : Rect) (downward : Int) : Prop :=
@@ -482,7 +498,13 @@ def InContract (fx : Fixes) (d : Drv) (vt : VT.VTState) : Request → Prop
       (fx.eraseKeepsCount = false → d.pen.reverse = true → me = .no → n ≤ 64) ∧
       (d.pen.reverse = true → me = .no → vt.col + n = vt.cols → vt.col = 0)
   | .clear => True
-  | .scroll r dn rt => ScrollInRange vt r dn rt ∧ (fx.scrollGuard = false → ¬ OneColumnTrigger d.caps vt.cols r dn)
+  | .scroll r dn rt =>
+      -- a non-empty rectangle on the screen; the offsets are bounded by the rectangle's size only where the source
+      -- lacks the guard that makes `scrollrect` refuse what it cannot do (Props `scroll_effect_general`): with both
+      -- guards (`fixes/C09_scroll_one_column.patch`, `fixes/C09_scroll_one_cell.patch`) offsets of ANY size are in range
+      RectOnScreen vt r ∧
+      (fx.scrollGuard = false → (-r.lines < dn ∧ dn < r.lines) ∧ ¬ OneColumnTrigger d.caps vt.cols r dn) ∧
+      (fx.scrollGuard = false ∨ fx.scrollCellGuard = false → -r.cols < rt ∧ rt < r.cols)
 
 /-- What one request must have done to the screen. -/
 def StepOK (fx : Fixes) (d : Drv) (vt vt' : VT.VTState) : Request → Prop
